@@ -29,7 +29,7 @@ def M : Nat := 397
 def seedLoop : Nat → Nat → UInt32 → Array UInt32 → Array UInt32
   | 0, _, _, a => a
   | f + 1, i, prev, a =>
-    let x : UInt32 := 1812433253 * (prev ^^^ (prev >>> 30)) + UInt32.ofNat i
+    let x : UInt32 := (1812433253 : UInt32) * (prev ^^^ (prev >>> 30)) + UInt32.ofNat i
     seedLoop f (i + 1) x (a.push x)
 
 /-- `std::mt19937 g(s)` / `g.seed(s)` -/
@@ -40,7 +40,7 @@ def twistLoop : Nat → Nat → Array UInt32 → Array UInt32
   | 0, _, a => a
   | f + 1, k, a =>
     let y : UInt32 := (a[k]! &&& 0x80000000) ||| (a[(k + 1) % N]! &&& 0x7fffffff)
-    let v : UInt32 := a[(k + M) % N]! ^^^ (y >>> 1) ^^^ (if y &&& 1 = 1 then 0x9908b0df else 0)
+    let v : UInt32 := a[(k + M) % N]! ^^^ (y >>> 1) ^^^ (if y &&& 1 = 1 then (0x9908b0df : UInt32) else 0)
     twistLoop f (k + 1) (a.set! k v)
 
 /-- `_M_gen_rand` (in place, ascending index: entries `k+1`, `k+M mod N` are read as the C++ reads them) -/
